@@ -30,6 +30,10 @@ Driver operations for the peer-management models (C18). Core Lean only.
      answer: <admitted|rejected:reason|-> conns=<n> live=<n> closed=<n> dials=<n> asks=<n> out=<n> inb=<n> n=<Count()> cc=[…] og=[…]
              (cc over hosts < 32, og over groups < 8)
 
+  am new <banTicks> <maxRefs> | am add <addr> <bucket|-> | am good <addr> <triedBucket> | am ban <addr> | am clock <ticks> | am dump
+     answer: nNew=<n> nTried=<n> idx=[addr:refs:tried,…] new=[bucket:addr,…] tried=[bucket:addr,…] ban=[addr:remaining,…]
+  am get        -> the outcomes GetAddress can have for the two values of its coin: nil | tried | new | hang, e.g. `tried|new`
+
 Every `conn` op is ALSO computed by the code regenerated from connmanager.go (`BHS.Gen.ConnMgr` through
 `BHS.Model.ConnMgrWire.genStep`); when its state (answer line, pending, live, ids, counters) differs from the hand
 model's the answer is `err:gen-mismatch model=… gen=…`, so the correspondence runs exercise the translation too.
@@ -38,6 +42,7 @@ import BHS.Model.Peers
 import BHS.Model.ConnMgr
 import BHS.Model.ConnMgrWire
 import BHS.Model.PeerWire
+import BHS.Model.AddrMgr
 import BHS.Gen.PeerConsts
 
 namespace Driver.Ops.Peers
@@ -52,6 +57,8 @@ structure S where
   wcfg : PeerWire.Cfg := { pc := { maxPeers := Gen.maxPeers, maxPerIP := Gen.maxPeersPerIP, banMs := Gen.banDurationDefaultMs },
                            cc := { target := Gen.defaultTargetOutbound, banAddr := true, maxFailed := Gen.maxFailedAttempts } }
   wst : PeerWire.W := {}  -- admission handlers + connection manager wired as in server.go
+  acfg : AddrMgr.Cfg := { banT := 24, maxRefs := 8 }
+  ast : AddrMgr.St := {}  -- the address manager's bookkeeping
 
 def kindOf : String → Option Peers.Kind
   | "in" => some .inbound
@@ -118,6 +125,33 @@ def connStep (st : S) (e : Option ConnMgr.Event) : Option (S × String) :=
     some ({ st with cst := c, gst := g }, connCheck c g)
   | none => some (st, "bad-index")
 
+def insPair (p : Nat × Nat) : List (Nat × Nat) → List (Nat × Nat)
+  | [] => [p]
+  | q :: l => if p.1 < q.1 ∨ (p.1 = q.1 ∧ p.2 ≤ q.2) then p :: q :: l else q :: insPair p l
+
+def insBucketStable (p : Nat × Nat) : List (Nat × Nat) → List (Nat × Nat)
+  | [] => [p]
+  | q :: l => if p.1 < q.1 then p :: q :: l else q :: insBucketStable p l
+
+def showPairs (l : List (Nat × Nat)) : String := "[" ++ ",".intercalate (l.map (fun p => s!"{p.1}:{p.2}")) ++ "]"
+
+def amLine (s : AddrMgr.St) : String :=
+  let idx := (s.index.foldl (fun acc e => insPair (e.1, 0) acc) []).map (fun p =>
+    match AddrMgr.find s p.1 with
+    | some ka => s!"{p.1}:{ka.refs}:{if ka.tried then 1 else 0}"
+    | none => s!"{p.1}:?")
+  let nw := s.newB.foldl (fun acc e => insPair e acc) []
+  let tr := s.triedB.foldl (fun acc e => insBucketStable e acc) []
+  let bn := (s.banned.foldl (fun acc e => insPair (e.1, e.2 - s.now) acc) [])
+  s!"nNew={s.nNew} nTried={s.nTried} idx=[{",".intercalate idx}] new={showPairs nw} tried={showPairs tr} ban={showPairs bn}"
+
+def gotStr : AddrMgr.Got → String
+  | .nil => "nil" | .tried => "tried" | .new => "new" | .hang => "hang"
+
+def amStep (st : S) (op : AddrMgr.Op) : Option (S × String) :=
+  let s' := AddrMgr.step st.acfg st.ast op
+  some ({ st with ast := s' }, amLine s')
+
 def wireLine (res : String) (w : PeerWire.W) : String :=
   s!"{res} conns={w.c.conns.length} live={w.c.live.length} closed={w.c.closed.length} dials={w.c.dials} asks={w.c.asks} out={w.out.length} inb={w.inb.length} n={Peers.count w.p} cc={showInts 32 w.p.conn} og={showInts 8 w.p.groups}"
 
@@ -129,6 +163,19 @@ def wireStep (st : S) (e : PeerWire.Event) : Option (S × String) :=
   some ({ st with wst := r.1 }, wireLine res r.1)
 
 def handle (st : S) : List String → Option (S × String)
+  | ["am", "new", b, m] => do
+    let cfg : AddrMgr.Cfg := { banT := (← b.toNat?), maxRefs := ((← m.toNat?) : Nat) }
+    pure ({ st with acfg := cfg, ast := {} }, amLine {})
+  | ["am", "add", a, "-"] => do amStep st (.add (← a.toNat?) none)
+  | ["am", "add", a, b] => do amStep st (.add (← a.toNat?) (some (← b.toNat?)))
+  | ["am", "good", a, t] => do amStep st (.good (← a.toNat?) (← t.toNat?))
+  | ["am", "ban", a] => do amStep st (.ban (← a.toNat?))
+  | ["am", "clock", d] => do amStep st (.clock (← d.toNat?))
+  | ["am", "dump"] => some (st, amLine st.ast)
+  | ["am", "get"] =>
+    let x := gotStr (AddrMgr.getAddress st.ast true)
+    let y := gotStr (AddrMgr.getAddress st.ast false)
+    some (st, if x = y then x else x ++ "|" ++ y)
   | ["wire", "new", t, b] => do
     let target ← t.toNat?
     let ban ← b.toNat?
